@@ -358,6 +358,11 @@ def walk(sc, rng, length, res):
                 break
         else:
             continue
+        noop = rng.random() < 0.07
+        if noop:
+            # the no-op as an Action object (accepted by step in both action modes); its fixed target (1, 0) may well
+            # be undiscovered or unreachable at this point
+            a, idx, vec = NoOp(), None, None
         uval = rng.choice(placements(a.prob))
         if 0.06 <= r < 0.12:
             # documented side-effect-free public calls in mid-episode must not change what follows
@@ -369,7 +374,7 @@ def walk(sc, rng, length, res):
                 e.goal_reached()
                 if e.current_state.tensor.tobytes() != cur or e.steps != steps:
                     cross.append("generate_initial_state / get_action_mask / goal_reached disturbed the environment")
-        if r > 0.9 and older:
+        if r > 0.9 and older and not noop:
             # generative_step on a stored older state must not disturb the walk (C13)
             st_old = rng.choice(older)
             e = envs[(False, True, True)]
@@ -381,9 +386,12 @@ def walk(sc, rng, length, res):
         outs = {}
         for m, e in envs.items():
             DR.v = uval; DR.n = 0
-            arg = idx if m[1] else list(vec)
-            if rng.random() < 0.5:
-                arg = np.int64(idx) if m[1] else np.array(vec)
+            if noop:
+                arg = a
+            else:
+                arg = idx if m[1] else list(vec)
+                if rng.random() < 0.5:
+                    arg = np.int64(idx) if m[1] else np.array(vec)
             # step must equal generative_step + install (C13)
             st_before = e.current_state
             DR.v = uval
